@@ -1,6 +1,16 @@
 import EupsModel.Lemmas.Vro
 import EupsModel.Lemmas.VroSelect
 import EupsModel.Lemmas.VroC10
+import EupsModel.Lemmas.VroSelectGen
+import EupsModel.Lemmas.VroSelectWarn
+import EupsModel.Lemmas.VroCmd
+import EupsModel.Lemmas.VroApiSem
+import EupsModel.Lemmas.VroApi
+import EupsModel.Lemmas.VroPath
+import EupsModel.Lemmas.VroPretagAny
+import EupsModel.Lemmas.VroOrder
+import EupsModel.Lemmas.VroOrder2
+import EupsModel.Lemmas.VroSort
 /-! C03 — the version chosen is the one the Version Resolution Order designates.
 Property theorems only; the model is `Model/Vro.lean`, helper lemmas are in `Lemmas/Vro.lean`. -/
 namespace EupsModel.C03
@@ -208,50 +218,229 @@ theorem C03_tag_entry_absent (C : Ctx) (r : Req) (e : Str) (post : List Str) (ht
 /-- non-vacuity: `current` is an ordinary tag of the example context -/
 example : isPlainTag exCtx sCurrent = true := by decide
 
-/-- A version entry yields the explicitly named version from the first stack declaring it for the
-flavor; the reason reported is `commandLine` at the top level and `version` below it. -/
-theorem C03_version_entry (C : Ctx) (r : Req) (e v : Str) (post : List Str) (p : Prod) (reason : Str)
-    (he : isVT e = true) (hv : r.named = some v) (hex : isExpr v = .ok false)
-    (hx : e = kVersionExpr → r.vexpr = none) :
+/-- The same for a tag entry spelled in any way `Tags.getTag` accepts — a user tag `mine` or `user:mine`
+(chain records kept under `user:mine`), a global tag `global:t` / `:t` (kept under `t`): the entry yields
+the version carrying the tag `key` in the first stack on the path that has it; the reason reported is
+the entry as written. -/
+theorem C03_tag_entry_any_spelling (C : Ctx) (r : Req) (e key : Str) (post : List Str) (p : Prod) (reason : Str)
+    (ht : IsTagEntry C e key) :
     lookupEntry C r e post = .ok (.hit p reason) ↔
-      reason = (if r.depth == 0 then kCommandLine else kVersion) ∧
-      p.version = v ∧ p.flavor = r.flavor ∧
-      (∃ st, C.db[p.stack]? = some st ∧ declared st r.name v r.flavor = true) ∧
-      ∀ (j : Nat) (st' : Stack), j < p.stack → C.db[j]? = some st' → declared st' r.name v r.flavor = false := by
-  rw [lookupEntry_vt he, hv]
-  simp only
-  rw [lookupVT_explicit post hex hx]
-  cases hl : lookupVersion C.db r.name v r.flavor with
+      reason = e ∧ p.flavor = r.flavor ∧
+      (∃ st, C.db[p.stack]? = some st ∧ tagVersion st key r.name r.flavor = some p.version ∧
+          declared st r.name p.version r.flavor = true) ∧
+      ∀ (j : Nat) (st' : Stack), j < p.stack → C.db[j]? = some st' →
+        ∀ v, ¬ (tagVersion st' key r.name r.flavor = some v ∧ declared st' r.name v r.flavor = true) := by
+  rw [lookupEntry_tagKey post ht]
+  cases hl : lookupTag C.db key r.name r.flavor with
   | none =>
-    have hne : ¬ ((if post.any isVT = true then (Except.ok Outcome.skip : Except Err Outcome) else .ok .abort)
-        = .ok (.hit p reason)) := by
-      split <;> simp
-    simp only [hne, false_iff, not_and]
-    intro _ h1 h2 h3 h4
-    have : lookupVersion C.db r.name v r.flavor = some p := (lookupVersion_some_iff ..).mpr ⟨h1, h2, h3, h4⟩
+    simp only [Except.ok.injEq, reduceCtorEq, false_iff]
+    rintro ⟨_, hf, hst, hmin⟩
+    have : lookupTag C.db key r.name r.flavor = some p := by
+      apply (lookupTag_some_iff ..).mpr
+      obtain ⟨st, h1, h2, h3⟩ := hst
+      refine ⟨hf, ⟨st, h1, (tagHere_some_iff ..).mpr ⟨h2, h3⟩⟩, ?_⟩
+      intro j st' hj hget
+      exact (tagHere_none_iff ..).mpr (hmin j st' hj hget)
     rw [hl] at this
     cases this
   | some q =>
     simp only [Except.ok.injEq, Outcome.hit.injEq]
     constructor
-    · rintro ⟨rfl, rfl⟩
-      exact ⟨rfl, (lookupVersion_some_iff ..).mp hl⟩
-    · rintro ⟨rfl, h⟩
-      have : lookupVersion C.db r.name v r.flavor = some p := (lookupVersion_some_iff ..).mpr h
+    · rintro ⟨hq, hr⟩
+      subst hq
+      obtain ⟨hf, ⟨st, h1, h2⟩, hmin⟩ := (lookupTag_some_iff ..).mp hl
+      obtain ⟨h2, h3⟩ := (tagHere_some_iff ..).mp h2
+      refine ⟨hr.symm, hf, ⟨st, h1, h2, h3⟩, ?_⟩
+      intro j st' hj hget
+      exact (tagHere_none_iff ..).mp (hmin j st' hj hget)
+    · rintro ⟨hr, hf, ⟨st, h1, h2, h3⟩, hmin⟩
+      have : lookupTag C.db key r.name r.flavor = some p := by
+        apply (lookupTag_some_iff ..).mpr
+        refine ⟨hf, ⟨st, h1, (tagHere_some_iff ..).mpr ⟨h2, h3⟩⟩, ?_⟩
+        intro j st' hj hget
+        exact (tagHere_none_iff ..).mpr (hmin j st' hj hget)
       rw [hl] at this
       cases this
-      exact ⟨rfl, rfl⟩
+      exact ⟨rfl, hr.symm⟩
 
-/-- When no stack declares the named version, the entry hands over to a later version-type entry
-if there is one and gives the request up otherwise — it never lets the walk go on to the tags. -/
+/-- ... and it says "continue" exactly when no stack has the tag; it never gives the request up. -/
+theorem C03_tag_entry_any_spelling_absent (C : Ctx) (r : Req) (e key : Str) (post : List Str)
+    (ht : IsTagEntry C e key) :
+    (lookupEntry C r e post = .ok .skip ↔
+      ∀ st ∈ C.db, ∀ v, ¬ (tagVersion st key r.name r.flavor = some v ∧ declared st r.name v r.flavor = true)) ∧
+    lookupEntry C r e post ≠ .ok .abort := by
+  rw [lookupEntry_tagKey post ht]
+  cases hl : lookupTag C.db key r.name r.flavor with
+  | none =>
+    refine ⟨⟨fun _ st hst => ?_, fun _ => rfl⟩, by simp⟩
+    have : firstStack (fun st => tagHere st key r.name r.flavor) 0 C.db = none := by
+      simpa [lookupTag] using hl
+    exact (tagHere_none_iff ..).mp ((firstStack_none_iff _ 0 C.db).mp this st hst)
+  | some q =>
+    refine ⟨⟨fun h => by simp at h, fun h => ?_⟩, by simp⟩
+    obtain ⟨_, ⟨st, h1, h2⟩, _⟩ := (lookupTag_some_iff ..).mp hl
+    exact absurd ((tagHere_some_iff ..).mp h2) (h st (List.mem_of_getElem? h1) q.version)
+
+/-- non-vacuity: with the user tag `mine` registered, both `mine` and `user:mine` are tag entries whose chain
+records are kept under `user:mine`; `global:stable` and `:stable` are kept under `stable`; a plain tag is
+its own key. -/
+def sMine : Str := [109, 105, 110, 101]
+def exCtxU : Ctx := exCtx.withExtras [sMine] []
+example : IsTagEntry exCtxU sMine (kUserColon ++ sMine) ∧ IsTagEntry exCtxU (kUserColon ++ sMine) (kUserColon ++ sMine) ∧
+    IsTagEntry exCtxU (kGlobalColon ++ sStable) sStable ∧ IsTagEntry exCtxU (58 :: sStable) sStable ∧
+    IsTagEntry exCtxU sCurrent sCurrent := by
+  refine ⟨⟨by decide, by decide, by decide, by decide, by decide, by decide, by decide, by decide⟩,
+    ⟨by decide, by decide, by decide, by decide, by decide, by decide, by decide, by decide⟩,
+    ⟨by decide, by decide, by decide, by decide, by decide, by decide, by decide, by decide⟩,
+    ⟨by decide, by decide, by decide, by decide, by decide, by decide, by decide, by decide⟩,
+    isTagEntry_of_plain (by decide)⟩
+
+/-- The `setup` pseudo-tag yields the version that is set up (`SETUP_<NAME>`): it must be recorded for the
+flavor asked, and — unless it is a `LOCAL:` version, which is taken as it stands — be declared for that
+flavor in the stack its `-Z` names (looked up through the cache when the instance has one: `dbLatest`).
+Otherwise the entry says "continue"; it never gives the request up.  (Without `--ignore-versions`: with it the
+lookup inside `findSetupProduct` becomes the older `findPreferredProduct`, which the model leaves out.) -/
+theorem C03_setup_entry (C : Ctx) (r : Req) (post : List Str) (p : Prod) (reason : Str)
+    (hi : r.ignoreVersions = false) :
+    (lookupEntry C r kSetup post = .ok (.hit p reason) ↔
+      reason = kSetup ∧ ∃ s, r.setupEnv = some s ∧ s.flavor = r.flavor ∧ p.version = s.version ∧ p.flavor = r.flavor ∧
+        ((kLocal.isPrefixOf s.version = true ∧ p.stack = s.stack.getD C.db.length) ∨
+         (kLocal.isPrefixOf s.version = false ∧ ∃ i st, s.stack = some i ∧ p.stack = i ∧ C.dbLatest[i]? = some st ∧
+            declared st r.name s.version r.flavor = true))) ∧
+    lookupEntry C r kSetup post ≠ .ok .abort := by
+  rw [lookupEntry_setup C r post hi]
+  constructor
+  · cases hls : lookupSetup C r with
+    | none =>
+      simp only [Except.ok.injEq, reduceCtorEq, false_iff]
+      rintro ⟨_, s, hs, hf, hv, hpf, hcase⟩
+      unfold lookupSetup at hls
+      simp only [hs, hf, bne_self_eq_false, Bool.false_eq_true, if_false] at hls
+      rcases hcase with ⟨hl, _⟩ | ⟨hl, i, st, hi, _, hget, hd⟩
+      · simp [hl] at hls
+      · simp [hl, hi, hget, hd] at hls
+    | some q =>
+      simp only [Except.ok.injEq, Outcome.hit.injEq]
+      unfold lookupSetup at hls
+      cases hs : r.setupEnv with
+      | none => simp [hs] at hls
+      | some s =>
+        simp only [hs] at hls
+        by_cases hf : s.flavor = r.flavor
+        · simp only [hf, bne_self_eq_false, Bool.false_eq_true, if_false] at hls
+          by_cases hl : kLocal.isPrefixOf s.version = true
+          · simp only [hl, if_true, Option.some.injEq] at hls
+            constructor
+            · rintro ⟨rfl, rfl⟩
+              subst hls
+              exact ⟨rfl, s, rfl, hf, rfl, rfl, Or.inl ⟨hl, rfl⟩⟩
+            · rintro ⟨rfl, s', hs', _, hv, hpf, hcase⟩
+              cases hs'
+              rcases hcase with ⟨_, hst⟩ | ⟨hl', _⟩
+              · subst hls
+                refine ⟨?_, rfl⟩
+                cases p; simp_all
+              · rw [hl] at hl'; cases hl'
+          · have hl' : kLocal.isPrefixOf s.version = false := Bool.eq_false_iff.mpr hl
+            simp only [hl', Bool.false_eq_true, if_false] at hls
+            cases hi : s.stack with
+            | none => simp [hi] at hls
+            | some i =>
+              simp only [hi] at hls
+              cases hget : C.dbLatest[i]? with
+              | none => simp [hget] at hls
+              | some st =>
+                simp only [hget] at hls
+                by_cases hd : declared st r.name s.version r.flavor = true
+                · simp only [hd, if_true, Option.some.injEq] at hls
+                  constructor
+                  · rintro ⟨rfl, rfl⟩
+                    subst hls
+                    exact ⟨rfl, s, rfl, hf, rfl, rfl, Or.inr ⟨hl', i, st, hi, rfl, hget, hd⟩⟩
+                  · rintro ⟨rfl, s', hs', _, hv, hpf, hcase⟩
+                    cases hs'
+                    rcases hcase with ⟨hl'', _⟩ | ⟨_, i', st', hi', hpi, _, _⟩
+                    · rw [hl'] at hl''; cases hl''
+                    · rw [hi] at hi'; cases hi'
+                      subst hls
+                      refine ⟨?_, rfl⟩
+                      cases p; simp_all
+                · simp [hd] at hls
+        · have : (s.flavor != r.flavor) = true := by simpa using hf
+          simp [this] at hls
+  · cases lookupSetup C r <;> simp
+
+/-- non-vacuity: `p 2.0 -f Linux -Z <stack 1>` is set up; the `setup` entry yields it -/
+example : lookupEntry exCtx { exReq none 1 with setupEnv := some ⟨v20, sLinux, some 1⟩ } kSetup [] =
+    .ok (.hit ⟨v20, sLinux, 1⟩ kSetup) := by decide
+
+/-- A version entry yields the explicitly named version from the first stack declaring it for the
+flavor; the reason reported is `commandLine` at the top level and `version` below it.  Only when no
+stack declares it can a `LOCAL:<dir>` version naming an existing directory answer (second disjunct):
+the product is the directory itself — no flavor, no stack — for the reason `commandLine` / `path from version`. -/
+theorem C03_version_entry (C : Ctx) (r : Req) (e v : Str) (post : List Str) (p : Prod) (reason : Str)
+    (he : isVT e = true) (hv : r.named = some v) (hex : isExpr v = .ok false)
+    (hx : e = kVersionExpr → r.vexpr = none) :
+    lookupEntry C r e post = .ok (.hit p reason) ↔
+      (reason = (if r.depth == 0 then kCommandLine else kVersion) ∧
+       p.version = v ∧ p.flavor = r.flavor ∧
+       (∃ st, C.db[p.stack]? = some st ∧ declared st r.name v r.flavor = true) ∧
+       ∀ (j : Nat) (st' : Stack), j < p.stack → C.db[j]? = some st' → declared st' r.name v r.flavor = false) ∨
+      ((∀ st ∈ C.db, declared st r.name v r.flavor = false) ∧ localProd C v = some p ∧
+       reason = (if r.depth == 0 then kCommandLine else kPathFromVersion)) := by
+  rw [lookupEntry_vt he, hv]
+  simp only
+  rw [lookupVT_explicit post hex hx]
+  cases hl : lookupVersion C.db r.name v r.flavor with
+  | none =>
+    have habs := (lookupVersion_none_iff ..).mp hl
+    have hleft : ¬ (reason = (if r.depth == 0 then kCommandLine else kVersion) ∧
+       p.version = v ∧ p.flavor = r.flavor ∧
+       (∃ st, C.db[p.stack]? = some st ∧ declared st r.name v r.flavor = true) ∧
+       ∀ (j : Nat) (st' : Stack), j < p.stack → C.db[j]? = some st' → declared st' r.name v r.flavor = false) := by
+      rintro ⟨_, h1, h2, h3, h4⟩
+      have : lookupVersion C.db r.name v r.flavor = some p := (lookupVersion_some_iff ..).mpr ⟨h1, h2, h3, h4⟩
+      rw [hl] at this
+      cases this
+    cases hlp : localProd C v with
+    | none =>
+      have hne : ¬ ((if post.any isVT = true then (Except.ok Outcome.skip : Except Err Outcome) else .ok .abort)
+          = .ok (.hit p reason)) := by
+        split <;> simp
+      simp only [hne, false_iff, not_or]
+      exact ⟨hleft, by rintro ⟨_, h, _⟩; cases h⟩
+    | some q =>
+      simp only [Except.ok.injEq, Outcome.hit.injEq]
+      constructor
+      · rintro ⟨rfl, rfl⟩
+        exact Or.inr ⟨habs, rfl, rfl⟩
+      · rintro (h | ⟨_, h, rfl⟩)
+        · exact absurd h hleft
+        · cases h; exact ⟨rfl, rfl⟩
+  | some q =>
+    simp only [Except.ok.injEq, Outcome.hit.injEq]
+    constructor
+    · rintro ⟨rfl, rfl⟩
+      exact Or.inl ⟨rfl, (lookupVersion_some_iff ..).mp hl⟩
+    · rintro (⟨rfl, h⟩ | ⟨habs, _, _⟩)
+      · have : lookupVersion C.db r.name v r.flavor = some p := (lookupVersion_some_iff ..).mpr h
+        rw [hl] at this
+        cases this
+        exact ⟨rfl, rfl⟩
+      · rw [(lookupVersion_none_iff ..).mpr habs] at hl
+        cases hl
+
+/-- When no stack declares the named version (and it is not a `LOCAL:` directory that exists), the entry
+hands over to a later version-type entry if there is one and gives the request up otherwise — it never
+lets the walk go on to the tags. -/
 theorem C03_version_entry_absent (C : Ctx) (r : Req) (e v : Str) (post : List Str)
     (he : isVT e = true) (hv : r.named = some v) (hex : isExpr v = .ok false)
     (hx : e = kVersionExpr → r.vexpr = none)
-    (habs : ∀ st ∈ C.db, declared st r.name v r.flavor = false) :
+    (habs : ∀ st ∈ C.db, declared st r.name v r.flavor = false) (hloc : localProd C v = none) :
     lookupEntry C r e post = .ok (if post.any isVT then .skip else .abort) := by
   rw [lookupEntry_vt he, hv]
   simp only
-  rw [lookupVT_explicit post hex hx, (lookupVersion_none_iff ..).mpr habs]
+  rw [lookupVT_explicit post hex hx, (lookupVersion_none_iff ..).mpr habs, hloc]
   by_cases hp : post.any isVT = true <;> simp [hp]
 
 /-- non-vacuity: `p 1.0` at depth 1 on the example database: stack 0 declares it -/
@@ -294,7 +483,7 @@ entry hands over to a later version-type entry or gives the request up. -/
 theorem C03_expr_entry_absent (C : Ctx) (r : Req) (v : Str) (post : List Str)
     (hv : r.named = some v) (hex : isExpr v = .ok true)
     (hnone : ∀ st ∈ C.db, ∀ w, ¬ (declared st r.name w r.flavor = true ∧ C.ord.vmatch w v = true))
-    (hlit : ∀ st ∈ C.db, declared st r.name v r.flavor = false) :
+    (hlit : ∀ st ∈ C.db, declared st r.name v r.flavor = false) (hloc : localProd C v = none) :
     lookupEntry C r kVersionExpr post = .ok (if post.any isVT then .skip else .abort) := by
   rw [lookupEntry_vt isVT_versionExpr, hv]
   simp only
@@ -303,6 +492,7 @@ theorem C03_expr_entry_absent (C : Ctx) (r : Req) (v : Str) (post : List Str)
   | none =>
     simp only
     rw [(lookupVersion_none_iff ..).mpr hlit]
+    simp only [hloc]
     by_cases hp : post.any isVT = true <;> simp [hp]
   | some p =>
     obtain ⟨_, ⟨st, h2, h3, _⟩, _⟩ :=
@@ -338,7 +528,7 @@ example : lookupEntry exCtx (exReq (some [62, 61, 32, 50, 46, 48]) 1) kVersionEx
 version declared anywhere on the path (for the flavor) is newer; it says "continue" only when
 nothing is declared.  (`latest` reads `Ctx.dbLatest`: `_findLatestProduct` ignores `noCache`.) -/
 theorem C03_latest_entry_is_max (C : Ctx) (P : Str → Prop) (g : GoodOrdOn P C.ord.cmp) (hP : DeclIn P C.dbLatest)
-    (r : Req) (post : List Str) (hl : C.recognized kLatest = true) :
+    (r : Req) (post : List Str) :
     (∀ p reason, lookupEntry C r kLatest post = .ok (.hit p reason) →
       reason = kLatest ∧ p.flavor = r.flavor ∧
       (∃ st, C.dbLatest[p.stack]? = some st ∧ declared st r.name p.version r.flavor = true) ∧
@@ -354,7 +544,7 @@ theorem C03_latest_entry_is_max (C : Ctx) (P : Str → Prop) (g : GoodOrdOn P C.
     cases hll : lookupLatest C.ord.cmp C.dbLatest r.name r.flavor <;>
       simp [lookupEntry, show (kLatest == kPath) = false by decide, show (kLatest == kKeep) = false by decide,
         show (kLatest == kCommandLine) = false by decide, show isVT kLatest = false by decide,
-        show isWarn kLatest = false by decide, show colon ∉ kLatest by decide, hl,
+        show isWarn kLatest = false by decide, tagKey_latest C,
         show (kLatest == kSetup) = false by decide, lookupTagEntry, hll]
   rw [hentry]
   cases hll : lookupLatest C.ord.cmp C.dbLatest r.name r.flavor with
@@ -396,7 +586,7 @@ theorem C03_expr_entry_is_max_conv (C : Ctx) (hord : C.ord = c10Ord) (hconv : De
 
 /-- ... and `latest` likewise -/
 theorem C03_latest_entry_is_max_conv (C : Ctx) (hord : C.ord = c10Ord) (hconv : DeclIn ConvName C.dbLatest)
-    (r : Req) (post : List Str) (hl : C.recognized kLatest = true) :
+    (r : Req) (post : List Str) :
     (∀ p reason, lookupEntry C r kLatest post = .ok (.hit p reason) →
       reason = kLatest ∧ p.flavor = r.flavor ∧
       (∃ st, C.dbLatest[p.stack]? = some st ∧ declared st r.name p.version r.flavor = true) ∧
@@ -406,7 +596,7 @@ theorem C03_latest_entry_is_max_conv (C : Ctx) (hord : C.ord = c10Ord) (hconv : 
       ∀ st ∈ C.dbLatest, ∀ w, declared st r.name w r.flavor = false) ∧
     lookupEntry C r kLatest post ≠ .ok .abort := by
   have g : GoodOrdOn ConvName C.ord.cmp := by rw [hord]; exact c10Cmp_good
-  have := C03_latest_entry_is_max C ConvName g hconv r post hl
+  have := C03_latest_entry_is_max C ConvName g hconv r post
   rw [hord] at this
   exact this
 
@@ -429,19 +619,22 @@ example : lookupEntry exCtxC10 (exReq (some [62, 61, 32, 50, 46, 48]) 1) kVersio
 /-- The flavor loop answers with a native-flavor declaration when one resolves: if the VRO walk for
 the native flavor yields a product (one that the top level accepts: no other version than an
 explicitly named one), that product is the answer, and it is of the native flavor — the fallback
-flavors are not consulted. -/
+flavors are not consulted.  (`NoLocal`: a `LOCAL:<dir>` version naming an existing directory is answered by the
+directory itself, a product without flavor.) -/
 theorem C03_native_flavor_first (C : Ctx) (r : Req) (keep : Bool) (vro : List Str) (native : Str)
     (rest : List Str) (h : Hit) (hr : r.already = none)
     (hf : find C { r with flavor := native } vro = .ok (some h))
     (hacc : acceptableB r h = .ok true) :
-    resolve C r keep vro (native :: rest) = .ok (some h) ∧ h.prod.flavor = native := by
+    resolve C r keep vro (native :: rest) = .ok (some h) ∧ (NoLocal C r → h.prod.flavor = native) := by
   have hr' : ({ r with flavor := native } : Req).already = none := hr
   have hacc' : acceptableB { r with flavor := native } h = .ok true := hacc
   constructor
   · unfold resolve
     rw [resolveFlavor_of_find_some hf hacc']
-  · rw [find_eq_walk vro hr'] at hf
-    exact walk_flavor hr' hf
+  · intro hloc
+    have hloc' : NoLocal C { r with flavor := native } := hloc
+    rw [find_eq_walk vro hr'] at hf
+    exact walk_flavor hr' hloc' hf
 
 /-- ... and with the fallback declaration otherwise: when nothing resolves for the native flavor the
 answer is that of the remaining flavors, in their order. -/
@@ -481,45 +674,54 @@ example : resolve exCtx (exReq (some [62, 61, 32, 51, 46, 48]) 0) false defaultV
 (`Mode.mixed`) included — `findProductFromVRO` gives, for every flavor the process loads (the native
 flavor and its fallbacks), the answer it gives through the files. -/
 theorem C03_cache_view_agrees (o : Ord) (tags : List Str) (db : Db) (loaded : List Str)
-    (accepted : List Bool) (r : Req) (vro : List Str) (m : Mode)
+    (accepted : List Bool) (r : Req) (vro : List Str) (m : Mode) (userTags dirs : List Str)
     (hyp : (∀ b ∈ accepted, b = false) ∨ r.flavor ∈ loaded) :
-    find (mkCtx o tags db m loaded accepted) r vro = find (mkCtx o tags db .files loaded accepted) r vro := by
+    find ((mkCtx o tags db m loaded accepted).withExtras userTags dirs) r vro =
+      find ((mkCtx o tags db .files loaded accepted).withExtras userTags dirs) r vro := by
   rcases hyp with h | h
   · have := cacheView_all_rebuilt loaded accepted db h
     cases m <;> simp [mkCtx, this]
   · have hv : ViewsAgree r.flavor (cacheView loaded accepted db) db := cacheView_agree h accepted db
     cases m
     · rfl
-    · exact find_view_congr (C := mkCtx o tags db .cache loaded accepted)
-        (C' := mkCtx o tags db .files loaded accepted) rfl rfl hv hv vro
-    · exact find_view_congr (C := mkCtx o tags db .mixed loaded accepted)
-        (C' := mkCtx o tags db .files loaded accepted) rfl rfl (viewsAgree_refl _ _) hv vro
+    · exact find_view_congr (C := (mkCtx o tags db .cache loaded accepted).withExtras userTags dirs)
+        (C' := (mkCtx o tags db .files loaded accepted).withExtras userTags dirs) rfl rfl rfl rfl hv hv vro
+    · exact find_view_congr (C := (mkCtx o tags db .mixed loaded accepted).withExtras userTags dirs)
+        (C' := (mkCtx o tags db .files loaded accepted).withExtras userTags dirs) rfl rfl rfl rfl
+        (viewsAgree_refl _ _) hv vro
 
 /-- The flavor loop through the cache is the flavor loop through the files: the process loads the
 native flavor and its fallbacks, which are the flavors the loop visits, so whatever stacks had their
-cache accepted or rebuilt the answer is the same — no hypothesis on the load outcome is left. -/
+cache accepted or rebuilt the answer is the same — no hypothesis on the load outcome is left.  User
+tags, the `setup` pseudo-tag (which reads the cache too) and `LOCAL:` versions included. -/
 theorem C03_fallback_via_cache (o : Ord) (tags : List Str) (db : Db) (native : Str) (fallbacks : List Str)
-    (accepted : List Bool) (r : Req) (keep : Bool) (vro : List Str) (m : Mode) :
-    resolve (mkCtx o tags db m (native :: fallbacks) accepted) r keep vro (native :: fallbacks) =
-      resolve (mkCtx o tags db .files (native :: fallbacks) accepted) r keep vro (native :: fallbacks) := by
+    (accepted : List Bool) (r : Req) (keep : Bool) (vro : List Str) (m : Mode) (userTags dirs : List Str) :
+    resolve ((mkCtx o tags db m (native :: fallbacks) accepted).withExtras userTags dirs) r keep vro (native :: fallbacks) =
+      resolve ((mkCtx o tags db .files (native :: fallbacks) accepted).withExtras userTags dirs) r keep vro
+        (native :: fallbacks) := by
   cases m
   · rfl
-  · exact resolve_view_congr (C := mkCtx o tags db .cache (native :: fallbacks) accepted)
-      (C' := mkCtx o tags db .files (native :: fallbacks) accepted) r keep vro _ rfl rfl
+  · exact resolve_view_congr (C := (mkCtx o tags db .cache (native :: fallbacks) accepted).withExtras userTags dirs)
+      (C' := (mkCtx o tags db .files (native :: fallbacks) accepted).withExtras userTags dirs) r keep vro _
+      rfl rfl rfl rfl
       (fun f hf => cacheView_agree hf accepted db) (fun f hf => cacheView_agree hf accepted db)
-  · exact resolve_view_congr (C := mkCtx o tags db .mixed (native :: fallbacks) accepted)
-      (C' := mkCtx o tags db .files (native :: fallbacks) accepted) r keep vro _ rfl rfl
+  · exact resolve_view_congr (C := (mkCtx o tags db .mixed (native :: fallbacks) accepted).withExtras userTags dirs)
+      (C' := (mkCtx o tags db .files (native :: fallbacks) accepted).withExtras userTags dirs) r keep vro _
+      rfl rfl rfl rfl
       (fun f _ => viewsAgree_refl f db) (fun f hf => cacheView_agree hf accepted db)
 
 /-- so a native-flavor declaration is preferred, and the fallback used otherwise, through the cache as
 through the files: `C03_native_flavor_first` read through any cache view -/
 theorem C03_native_flavor_first_via_cache (o : Ord) (tags : List Str) (db : Db) (native : Str)
     (fallbacks : List Str) (accepted : List Bool) (m : Mode) (r : Req) (keep : Bool) (vro : List Str) (h : Hit)
-    (hr : r.already = none)
-    (hf : find (mkCtx o tags db .files (native :: fallbacks) accepted) { r with flavor := native } vro = .ok (some h))
+    (userTags dirs : List Str) (hr : r.already = none)
+    (hf : find ((mkCtx o tags db .files (native :: fallbacks) accepted).withExtras userTags dirs)
+            { r with flavor := native } vro = .ok (some h))
     (hacc : acceptableB r h = .ok true) :
-    resolve (mkCtx o tags db m (native :: fallbacks) accepted) r keep vro (native :: fallbacks) = .ok (some h) ∧
-      h.prod.flavor = native := by
+    resolve ((mkCtx o tags db m (native :: fallbacks) accepted).withExtras userTags dirs) r keep vro
+        (native :: fallbacks) = .ok (some h) ∧
+      (NoLocal ((mkCtx o tags db .files (native :: fallbacks) accepted).withExtras userTags dirs) r →
+        h.prod.flavor = native) := by
   rw [C03_fallback_via_cache]
   exact C03_native_flavor_first _ r keep vro native fallbacks h hr hf hacc
 
@@ -653,11 +855,114 @@ theorem C03_pretag_overrides_table_version (c : VroCfg) (a : VroArgs) (d : Defau
       · simp [lookupEntry, show (kTypeExact == kPath) = false by decide,
           show (kTypeExact == kKeep) = false by decide, show (kTypeExact == kCommandLine) = false by decide,
           show isVT kTypeExact = false by decide, show isWarn kTypeExact = false by decide,
-          show colon ∈ kTypeExact by decide, show isType kTypeExact = true by decide]
+          tagKey_typeExact C, show colon ∈ kTypeExact by decide, show isType kTypeExact = true by decide]
       · simp [lookupEntry, show (kCommandLine == kPath) = false by decide,
           show (kCommandLine == kKeep) = false by decide, hr]
     · have hne : e ≠ x := fun hc => hxA (hc ▸ heA)
       rw [lookupEntry_plainTag _ (hplain e h), hothers e h hne]
+
+/-- **Precedence among pre-tags is left to right**, for tags of any kind and with or without `--exact`: below the top level,
+with nothing set up beforehand, the answer on the VRO `selectVRO` built is the version designated by the FIRST -t tag on
+the command line that designates one — whatever later -t tags designate and whatever version (or expression) the table
+names.  `key t` is the name the chain records of tag `t` are kept under (`user:mine` for the user tag `mine`, spelled
+`mine` on the command line); `C03_pretag_overrides_table_version` is the special case of global tags of which only one
+designates. -/
+theorem C03_pretag_first_designating (c : VroCfg) (a : VroArgs) (d : DefaultCfg c)
+    (ht : ∀ t ∈ a.tags, GoodTag c t) (hp : ∀ t ∈ a.postTags, GoodTag c t)
+    (out : VroOut) (hsel : selectVRO c a = .ok out)
+    (C : Ctx) (r : Req) (hr : r.already = none) (hdepth : 0 < r.depth)
+    (key : Str → Str) (htag : ∀ t ∈ a.tags, IsTagEntry C t (key t))
+    (ta tb : List Str) (x : Str) (hsplit : a.tags = ta ++ x :: tb)
+    (p : Prod) (hxp : lookupTag C.db (key x) r.name r.flavor = some p)
+    (hbefore : ∀ t ∈ ta, lookupTag C.db (key t) r.name r.flavor = none) :
+    find C r out.vro = .ok (some ⟨p, x, x⟩) :=
+  pretag_first_designating c a d ht hp out hsel C r hr hdepth key htag ta tb x hsplit p hxp hbefore
+
+/-- ... and the flavor loop of `Eups.setup` settles on it: when that tag designates a version for the native flavor the
+fallback flavors are not consulted, whatever they declare and whatever their names are. -/
+theorem C03_pretag_first_designating_through_setup (c : VroCfg) (a : VroArgs) (d : DefaultCfg c)
+    (ht : ∀ t ∈ a.tags, GoodTag c t) (hp : ∀ t ∈ a.postTags, GoodTag c t)
+    (out : VroOut) (hsel : selectVRO c a = .ok out)
+    (C : Ctx) (r : Req) (keep : Bool) (native : Str) (rest : List Str) (hr : r.already = none) (hdepth : 0 < r.depth)
+    (key : Str → Str) (htag : ∀ t ∈ a.tags, IsTagEntry C t (key t))
+    (ta tb : List Str) (x : Str) (hsplit : a.tags = ta ++ x :: tb)
+    (p : Prod) (hxp : lookupTag C.db (key x) r.name native = some p)
+    (hbefore : ∀ t ∈ ta, lookupTag C.db (key t) r.name native = none) :
+    resolve C r keep out.vro (native :: rest) = .ok (some ⟨p, x, x⟩) :=
+  pretag_first_designating_setup c a d ht hp out hsel C r keep native rest hr hdepth key htag ta tb x hsplit p hxp hbefore
+
+/-- non-vacuity: `--exact -t mine -t stable` with the user tag `mine` (kept as `user:mine`) on `p 3.0` (generic) and a table
+naming `p 1.0`: on the VRO `type:exact commandLine mine stable version versionExpr current` the lookup for `generic` at
+depth 1 answers 3.0 through `mine` -/
+def exCfgU : VroCfg := { exCfg false true with globalTags := [kCurrent, sStable, sBeta, sMine] }
+def exDbU : Db := [{ decls := [⟨sP, v10, sGeneric⟩, ⟨sP, v30, sGeneric⟩],
+                     tags := [⟨kUserColon ++ sMine, sP, sGeneric, v30⟩, ⟨sStable, sP, sGeneric, v10⟩] }]
+def exCtxU2 : Ctx := (mkCtx simpleOrd [sCurrent, sStable, sBeta] exDbU .files [sLinux, sGeneric] []).withExtras [sMine] []
+example : (selectVRO exCfgU (exArgs [sMine, sStable] [] false)).map (·.vro)
+    = .ok [kTypeExact, kCommandLine, sMine, sStable, kVersion, kVersionExpr, kCurrent] := by decide
+example : find exCtxU2 { exReq (some v10) 1 with flavor := sGeneric }
+    [kTypeExact, kCommandLine, sMine, sStable, kVersion, kVersionExpr, kCurrent]
+    = .ok (some ⟨⟨v30, sGeneric, 0⟩, sMine, sMine⟩) := by decide
+example : IsTagEntry exCtxU2 sMine (kUserColon ++ sMine) ∧ IsTagEntry exCtxU2 sStable sStable ∧
+    GoodTag exCfgU sMine ∧ GoodTag exCfgU sStable :=
+  ⟨⟨by decide, by decide, by decide, by decide, by decide, by decide, by decide, by decide⟩,
+   ⟨by decide, by decide, by decide, by decide, by decide, by decide, by decide, by decide⟩,
+   ⟨by decide, by decide, by decide, by decide⟩, ⟨by decide, by decide, by decide, by decide⟩⟩
+
+/-- **The complete reading of the VRO for a request that names no version** (default configuration; keep / exact /
+inexact / -r / -z in any combination; tags of any kind): the answer is that of the FIRST of — the -t tags in command-line
+order, then the -T tags in command-line order, then `current` — that designates a version of the product
+(`firstDesignating`); nothing else on the VRO `selectVRO` built can answer.  (`hkeep`: with `--keep` at the top level the
+`keep` entry is looked up as a tag named `keep`; excluded.) -/
+theorem C03_unversioned_request_reads_tags_in_order (c : VroCfg) (a : VroArgs) (d : DefaultCfg c)
+    (ht : ∀ t ∈ a.tags, GoodTag c t) (hp : ∀ t ∈ a.postTags, GoodTag c t)
+    (out : VroOut) (hsel : selectVRO c a = .ok out)
+    (C : Ctx) (r : Req) (hr : r.already = none) (hn : r.named = none)
+    (hkeep : c.keep = false ∨ 0 < r.depth)
+    (key : Str → Str) (htag : ∀ t ∈ a.tags ++ a.postTags ++ [kCurrent], IsTagEntry C t (key t)) :
+    find C r out.vro = .ok (firstDesignating C r key (a.tags ++ a.postTags ++ [kCurrent])) :=
+  unversioned_request_reads_tags_in_order c a d ht hp out hsel C r hr hn hkeep key htag
+
+/-- **The complete reading of the VRO for a request that names a version or an expression** (default configuration; keep /
+exact / inexact / -r / -z in any combination; tags of any kind; nothing set up beforehand): the answer is that of the first
+-t tag, in command-line order, that designates a version; when none does, that of the two version entries `version`
+`versionExpr` alone (whose answers `C03_version_entry`, `C03_expr_entry_is_max` and their `_absent` companions describe) —
+the -T tags and `current` behind them are never consulted: pre-tags override the named version, post-tags do not, and the
+request fails rather than fall through. -/
+theorem C03_versioned_request_reading (c : VroCfg) (a : VroArgs) (d : DefaultCfg c)
+    (ht : ∀ t ∈ a.tags, GoodTag c t) (hp : ∀ t ∈ a.postTags, GoodTag c t)
+    (out : VroOut) (hsel : selectVRO c a = .ok out)
+    (C : Ctx) (r : Req) (hr : r.already = none) (hn : r.named.isSome = true)
+    (hkeep : c.keep = false ∨ 0 < r.depth)
+    (key : Str → Str) (htag : ∀ t ∈ a.tags ++ a.postTags ++ [kCurrent], IsTagEntry C t (key t)) :
+    find C r out.vro =
+      match firstDesignating C r key a.tags with
+      | some hit => .ok (some hit)
+      | none => walk C r [kVersion, kVersionExpr] :=
+  versioned_request_reading c a d ht hp out hsel C r hr hn hkeep key htag
+
+/-- non-vacuity: `-T stable p 9.9` (9.9 declared nowhere; `stable -> 1.0`): the request fails, `stable` is not consulted -/
+example : find exCtx (exReq (some v99) 1) [kTypeExact, kCommandLine, kVersion, kVersionExpr, sStable, sCurrent] = .ok none ∧
+    walk exCtx (exReq (some v99) 1) [kVersion, kVersionExpr] = .ok none := by decide
+
+/-- "Post-tags apply only when no usable version is named", the positive half: for a request that names no version, when no
+-t tag designates a version, the first -T tag in command-line order that designates one answers; when none does, `current`. -/
+theorem C03_posttags_apply_in_order (c : VroCfg) (a : VroArgs) (d : DefaultCfg c)
+    (ht : ∀ t ∈ a.tags, GoodTag c t) (hp : ∀ t ∈ a.postTags, GoodTag c t)
+    (out : VroOut) (hsel : selectVRO c a = .ok out)
+    (C : Ctx) (r : Req) (hr : r.already = none) (hn : r.named = none)
+    (hkeep : c.keep = false ∨ 0 < r.depth)
+    (key : Str → Str) (htag : ∀ t ∈ a.tags ++ a.postTags ++ [kCurrent], IsTagEntry C t (key t))
+    (hpre : ∀ t ∈ a.tags, lookupTag C.db (key t) r.name r.flavor = none) :
+    find C r out.vro = .ok (firstDesignating C r key (a.postTags ++ [kCurrent])) :=
+  posttags_apply_in_order c a d ht hp out hsel C r hr hn hkeep key htag hpre
+
+/-- non-vacuity: `-t beta -T stable p` on the example database (no `beta` anywhere; `stable -> 1.0` in stack 0):
+answered by `stable`, not by `current` -/
+example : find exCtx (exReq none 0) [kTypeExact, kCommandLine, sBeta, kVersion, kVersionExpr, sStable, sCurrent]
+    = .ok (some ⟨⟨v10, sLinux, 0⟩, sStable, sStable⟩) := by decide
+example : firstDesignating exCtx (exReq none 0) id [sBeta, sStable, sCurrent] = some ⟨⟨v10, sLinux, 0⟩, sStable, sStable⟩ := by
+  decide
 
 /-- Post-tags apply only when no usable version is named: for a request that names a version or an
 expression the answer on the VRO `selectVRO` built is the answer of an initial piece of that VRO which
@@ -683,6 +988,251 @@ theorem C03_posttag_only_without_version (c : VroCfg) (a : VroArgs) (d : Default
       rw [hm, he] at this; cases this
   · rw [hsplit]
     exact C03_named_request_never_falls_through C r pre e post hn he hpost
+
+/-! ## any VRO dictionary (site configurations, `-z` dictionaries, a `-t` tag that is a dictionary key)
+
+The property quantifies over the default configuration; the placement clauses hold for every dictionary
+whose selected list has the shape `ShapedBaseW`: every entry recognised (`warn` / `warn:N` entries included) and no
+version-type entry in front of the last `commandLine` / `type:*` entry.  `C03_pretag_shape_needed_witness`
+and `C03_posttag_in_dict_witness` show that the shape and the side condition on the -T tag cannot be dropped. -/
+
+/-- Every -t tag stands on the resulting VRO in front of every version-type entry, whatever the
+dictionary, for any list `chooseBase` selects that has the shape `ShapedBaseW` (`hpost`: a -T tag needs a
+-t tag or a version-type entry to be placed at all — otherwise the code raises `UnboundLocalError`). -/
+theorem C03_pretag_before_version_any_dict (c : VroCfg) (a : VroArgs) (hu : c.userVRO = false) (base : List Str)
+    (store : List Str → List (Str × VroVal))
+    (hcb : chooseBase c a a.tags = .ok (base, store)) (hs : ShapedBaseW c base)
+    (ht : ∀ t ∈ a.tags, GoodTag c t) (hp : ∀ t ∈ a.postTags, GoodTag c t)
+    (hpost : a.postTags = [] ∨ a.tags ≠ [] ∨ ∃ x ∈ base, isVT x = true) :
+    ∃ out, selectVRO c a = .ok out ∧
+      ∀ t ∈ a.tags, ∃ pre post, out.vro = pre ++ t :: post ∧ ∀ x ∈ pre, isVT x = false :=
+  selectVRO_shapedW_pretag c a hu base store hcb hs ht hp hpost
+
+/-- On a shaped list with a version-type entry `selectVRO` succeeds, the version-type entries of the list are
+on the resulting VRO, and no version-type entry stands behind a -T tag `y` (not also given with -t) unless one
+already stood behind `y` in the dictionary's own list. -/
+theorem C03_posttag_after_version_any_dict (c : VroCfg) (a : VroArgs) (g : GenCfg c) (base : List Str)
+    (store : List Str → List (Str × VroVal))
+    (hcb : chooseBase c a a.tags = .ok (base, store)) (hs : ShapedBaseW c base)
+    (ht : ∀ t ∈ a.tags, GoodTag c t) (hp : ∀ t ∈ a.postTags, GoodTag c t)
+    (hvt : ∃ x ∈ base, isVT x = true) :
+    ∃ out, selectVRO c a = .ok out ∧ (∀ x ∈ base, isVT x = true → x ∈ out.vro) ∧
+      ∀ y ∈ a.postTags, y ∉ a.tags → NoVTBehind y base →
+        y ∈ out.vro ∧ ∀ pre post, out.vro = pre ++ y :: post → ∀ x ∈ post, isVT x = false :=
+  selectVRO_shapedW_posttag c a g base store hcb hs ht hp hvt
+
+/-- non-vacuity: a site dictionary with warnings, `default: commandLine warn:2 warn version warn:3 warn:1 versionExpr
+current current latest` -/
+example (keep exact : Bool) : ShapedBaseW (wCfg keep exact) wBase := wShaped keep exact
+
+/-- the default configuration is an instance -/
+example (c : VroCfg) (d : DefaultCfg c) : GenCfg c ∧ ShapedBaseW c defaultBase :=
+  ⟨genCfg_of_default d, (shapedBase_default d).toW⟩
+
+/-- negation: on `default: version commandLine current` (a version entry in front of `commandLine`; every other
+hypothesis holds) `-t beta` gives `version commandLine beta current`: the tag stands behind `version`. -/
+theorem C03_pretag_shape_needed_witness :
+    (selectVRO w1Cfg w1Args).map (·.vro) = .ok [kVersion, kCommandLine, gBeta, kCurrent] ∧
+    (¬ ∃ H T, w1Base = H ++ T ∧ (∀ x ∈ H, isVT x = false) ∧
+        (∀ x ∈ T, (x == kCommandLine || isType x) = false)) ∧
+    ¬ ∃ out, selectVRO w1Cfg w1Args = .ok out ∧
+        ∀ t ∈ w1Args.tags, ∃ pre post, out.vro = pre ++ t :: post ∧ ∀ x ∈ pre, isVT x = false := by
+  obtain ⟨_, _, _, _, _, _, _, h1, h2, h3⟩ := W1_split_needed
+  exact ⟨h1, h2, h3⟩
+
+/-- negation: on the shaped list `default: commandLine stable version versionExpr current`, `-T stable` leaves
+`stable` where the dictionary put it, in front of `version`. -/
+theorem C03_posttag_in_dict_witness :
+    ShapedBaseW w2Cfg w2Base ∧
+    (selectVRO w2Cfg w2Args).map (·.vro) = .ok [kCommandLine, gStable, kVersion, kVersionExpr, kCurrent] ∧
+    ¬ ∃ out, selectVRO w2Cfg w2Args = .ok out ∧
+        ∀ y ∈ w2Args.postTags, y ∉ w2Args.tags →
+          y ∈ out.vro ∧ ∀ pre post, out.vro = pre ++ y :: post → ∀ x ∈ post, isVT x = false := by
+  obtain ⟨_, h0, _, _, _, _, h1, h2⟩ := W2_posttag_in_base
+  exact ⟨h0.toW, h1, h2⟩
+
+/-! ## the command line: `eups vro ARGS` prints the VRO `setup ARGS` resolves with
+
+`Model/Vro.lean`, "command-line glue": `setupCmdVro` (setupcmd.py: `_processDefaultTags`, then one `selectVRO`) and
+`vroCmd` (cmd.py `VroCmd.execute`: `_processDefaultTags`, `createEups` — which already calls `selectVRO` and thereby
+edits the dictionary's own list, switches exact mode on and records the command-line tags — then `selectVRO` again). -/
+
+/-- Under the default configuration, for every command line of `-t`, `-T`, `-c`, `-e`, `-z` options, a version or
+none, and any configured default tags (the tags in force being registered global tags): `eups vro` reports exactly the
+VRO `setup` uses.  In particular the second `selectVRO` on the state the first one left changes nothing. -/
+theorem C03_vro_cmd_reports_setup_vro (c : VroCfg) (dc : DefaultCfg c) (d : DefaultTags) (k : CliCmd)
+    (hg : GoodCli c d k) :
+    (vroCmd c d k).map (·.vro) = (setupCmdVro c d k).map (·.vro) :=
+  vroCmd_eq_setupCmdVro c dc d k hg
+
+/-- the underlying fact, for every combination of keep / exact / inexact / version / -r / -z: calling `selectVRO` a
+second time with the same tags on the instance the first call left gives the VRO of a single call -/
+theorem C03_select_vro_twice (c : VroCfg) (dc : DefaultCfg c) (a : VroArgs)
+    (ht : ∀ t ∈ a.tags, GoodTag c t) (hp : ∀ t ∈ a.postTags, GoodTag c t) :
+    (selectVROTwice c a).map (·.vro) = (selectVRO c a).map (·.vro) :=
+  selectVROTwice_vro_eq c dc a ht hp
+
+/-- non-vacuity: `-t beta -c -T stable p 1.0` (with and without `-e`), and `-t None` with default tags configured -/
+example (e : Bool) : GoodCli cmdCfg noDefaultTags (cmdBetaCurrentStable e) := goodCli_betaCurrentStable e
+example : GoodCli cmdCfg betaDefault cmdNone := goodCli_none
+
+/-- negation, for the command as it was before fixes D90 and D91 (`vroCmdPinned`): `eups vro -t None p` printed a VRO
+without `type:exact`, and `eups vro -c -T beta p 1.0` put `beta` before `current`; `setup` with the same arguments
+resolves with `type:exact …` and `… current beta`.  The repaired command agrees with `setup` on both. -/
+theorem C03_vro_cmd_pinned_witness :
+    ((vroCmdPinned cmdCfg noDefaultTags cmdNone).map (·.vro)
+        = .ok [kCommandLine, kVersion, kVersionExpr, kCurrent] ∧
+     (setupCmdVro cmdCfg noDefaultTags cmdNone).map (·.vro)
+        = .ok [kTypeExact, kCommandLine, kVersion, kVersionExpr, kCurrent] ∧
+     (vroCmd cmdCfg noDefaultTags cmdNone).map (·.vro) = (setupCmdVro cmdCfg noDefaultTags cmdNone).map (·.vro)) ∧
+    ((vroCmdPinned cmdCfg noDefaultTags cmdCurrentBeta).map (·.vro)
+        = .ok [kTypeExact, kCommandLine, kVersion, kVersionExpr, gBeta, kCurrent] ∧
+     (setupCmdVro cmdCfg noDefaultTags cmdCurrentBeta).map (·.vro)
+        = .ok [kTypeExact, kCommandLine, kVersion, kVersionExpr, kCurrent, gBeta] ∧
+     (vroCmd cmdCfg noDefaultTags cmdCurrentBeta).map (·.vro)
+        = (setupCmdVro cmdCfg noDefaultTags cmdCurrentBeta).map (·.vro)) := by
+  obtain ⟨a1, a2, a3, _⟩ := vroCmdPinned_none_witness
+  obtain ⟨b1, b2, b3, _⟩ := vroCmdPinned_current_order_witness
+  exact ⟨⟨a1, a2, a3.trans a2.symm⟩, ⟨b1, b2, b3.trans b2.symm⟩⟩
+
+/-! ## the older entry points: `Eups.findProduct`, `findPreferredProduct`, a tag file (`Model/VroApi.lean`) -/
+
+/-- `findProduct(name, "<explicit version>")`: the named version from the first stack declaring it for the flavor —
+the explicit-version lookup of the VRO walk. -/
+theorem C03_find_product_explicit (C : Ctx) (q : ApiReq) (v : Str) (p : Prod) (hv : v.isEmpty = false)
+    (hi : q.ignoreVersions = false) (hex : isExpr v = .ok false) :
+    findProductApi C q (some v) = .ok (some p) ↔
+      p.version = v ∧ p.flavor = q.flavor ∧
+      (∃ st, C.db[p.stack]? = some st ∧ declared st q.name v q.flavor = true) ∧
+      ∀ (j : Nat) (st' : Stack), j < p.stack → C.db[j]? = some st' → declared st' q.name v q.flavor = false := by
+  rw [findProductApi_explicit C q v hv hi hex]
+  simp only [Except.ok.injEq]
+  exact lookupVersion_some_iff ..
+
+/-- `findProduct(name)` / `findPreferredProduct`: the first preferred tag that designates a version answers; what stands
+in front of it is passed over (`:`, digits, `type:…`) or is a tag that designates nothing. -/
+theorem C03_find_preferred_first_match (C : Ctx) (q : ApiReq) (p : Prod) :
+    findProductApi C q none = .ok (some p) ↔
+      ∃ pre e post key, q.preferred = pre ++ e :: post ∧ passedOver e = false ∧ C.tagKey e = some key ∧
+        findTagged C q key = .ok (some p) ∧
+        ∀ x ∈ pre, passedOver x = true ∨ ∃ k, C.tagKey x = some k ∧ findTagged C q k = .ok none :=
+  findPreferred_hit_iff C q q.preferred p
+
+/-- A tag file designates, for a product, the version of the first line naming it (`tagFileVersion`), and the lookup
+answers with that version from the first stack declaring it; a version no stack declares is a `LOCAL:` directory that
+exists, or a loud failure (`notFound`; nothing with `--force`) — never a silent fall-through.  A file that does not list
+the product designates nothing; an ill-formed line in front of the product's line is an error. -/
+theorem C03_tag_file_entry (C : Ctx) (q : ApiReq) (content : Str) :
+    (∀ v, tagFileVersion content q.name = .ok (some v) → v.isEmpty = false → q.ignoreVersions = false →
+      isExpr v = .ok false →
+      findTaggedFromFile C q content =
+        match lookupVersion C.db q.name v q.flavor with
+        | some p => .ok (some p)
+        | none =>
+          match localProd C v with
+          | some p => .ok (some p)
+          | none => if q.force then .ok none else .error .notFound) ∧
+    (tagFileVersion content q.name = .ok none → findTaggedFromFile C q content = .ok none) ∧
+    (∀ e, tagFileVersion content q.name = .error e → findTaggedFromFile C q content = .error (.file e)) :=
+  ⟨fun v h hv hi hex => findTaggedFromFile_explicit C q content v h hv hi hex,
+   findTaggedFromFile_not_listed C q content, fun e h => findTaggedFromFile_bad_line C q content e h⟩
+
+/-- non-vacuity: `p 2.0` on the second line of a file, against the example database (stack 1 declares `p 2.0`) -/
+example : findTaggedFromFile exCtx { name := sP, flavor := sLinux, ignoreVersions := false, preferred := [] }
+    ([35, 32, 120, 10] ++ sP ++ [32] ++ v20 ++ [10]) = .ok (some ⟨v20, sLinux, 1⟩) := by decide
+
+/-- **A VRO entry that names a tag file** (`os.path.isfile(vroTag)`; the walk `findF` of `Model/VroApi.lean`): an entry
+that is not a directive (`path`, `keep` below the top level, `commandLine`, a version entry, `warn`) and names an existing
+file answers as the file says — the version it lists for the product, from the first stack declaring it
+(`C03_tag_file_entry`), reason: the entry as written; "not listed" is "continue"; an ill-formed line or a version declared
+nowhere leaves the walk with an error.  With no such files the extended walk is `findProductFromVRO` itself. -/
+theorem C03_tag_file_on_vro (C : Ctx) (files : List (Str × Str)) (q : ApiReq) (r : Req) :
+    (∀ e post content, isDirective r e = false → lookupKey e files = some content →
+      lookupEntryF C files q r e post =
+        match findTaggedFromFile C q content with
+        | .error err => .error err
+        | .ok (some p) => .ok (.hit p e)
+        | .ok none => .ok .skip) ∧
+    (∀ vro, findF C [] q r vro = (match find C r vro with | .error e => .error (.walk e) | .ok o => .ok o)) :=
+  ⟨fun e post content hd hf => lookupEntryF_file C files q r e post content hd hf, fun vro => findF_nil C q r vro⟩
+
+/-- non-vacuity: the VRO `[<file>, current]` with the file listing `p 2.0`: answered by the file (2.0 from stack 1), not by
+`current`; the reason is the file's name -/
+example : findF exCtx [([47, 116], sP ++ [32] ++ v20 ++ [10])]
+    { name := sP, flavor := sLinux, ignoreVersions := false, preferred := [] } (exReq none 0) [[47, 116], sCurrent]
+    = .ok (some ⟨⟨v20, sLinux, 1⟩, [47, 116], [47, 116]⟩) := by decide
+
+/-- The tag-file reader reads back what a writer wrote: a file of plain `product version` lines, `setupRequired(…)`
+lines — with option words in front of the product, with or without a `[relative expression]` behind the version — comment
+lines and blank lines (`Entry`, each with the side conditions `Entry.Ok`: names without blanks that do not start like a
+comment, a bar or an option; no `)` / `[` inside words) designates, for a product, the version of the first line naming it.
+The version may contain a hyphen (`2.0-rc1`): that is the statement defect D92 violated. -/
+theorem C03_tag_file_reads_back (es : List Entry) (n : Str) (h : ∀ e ∈ es, e.Ok) :
+    tagFileVersion (es.flatMap (fun e => e.text ++ [10])) n
+      = .ok (((es.filterMap Entry.pair).find? (·.1 == n)).map (·.2)) :=
+  tagFileVersion_entries es n h
+
+/-- non-vacuity: `setupRequired(-j p 2.0-rc1 [>= 1.0])` is an admissible entry -/
+example : (Entry.setupExpr [[45, 106]] sP (Str.ofString "2.0-rc1") (Str.ofString ">= 1.0")).Ok := by
+  refine ⟨?_, ⟨⟨by decide, by decide⟩, by decide, by decide, by decide⟩, ⟨⟨by decide, by decide⟩, by decide, by decide, by decide⟩,
+    by decide, by decide, by decide, by decide⟩
+  intro o ho
+  have : o = [45, 106] := by simpa using ho
+  subst this
+  exact ⟨by decide, by decide, by decide, by decide⟩
+
+/-- negation for the pinned reader (before fix D92): `setupRequired(p  2.0-rc1 [>= 1.0])` designated `2.0`; the
+repaired reader reads `2.0-rc1`. -/
+theorem C03_tag_file_hyphen_witness :
+    tagFileLinePinned (Str.ofString "setupRequired(p  2.0-rc1 [>= 1.0])") = .ok (some (Str.ofString "p", Str.ofString "2.0")) ∧
+    tagFileLine (Str.ofString "setupRequired(p  2.0-rc1 [>= 1.0])") = .ok (some (Str.ofString "p", Str.ofString "2.0-rc1")) :=
+  ⟨d92_pinned, d92_fixed⟩
+
+/-! ## which stacks are searched, in which order: `Eups.setEupsPath` (-Z path, -z dbz) -/
+
+/-- The stacks a command searches are the pieces of the path that are directories (and, with `-z dbz`, contain the
+directory `dbz`), normalised, each listed once; and the order is that of first occurrence on the path: a piece is
+listed behind everything listed for the pieces in front of it. -/
+theorem C03_search_path (isdir : Str → Bool) (path : Str) (dbz : Option Str) (l : List Str)
+    (h : setEupsPath isdir path dbz = .ok l) :
+    l.Nodup ∧
+    (∀ x, x ∈ l ↔ ∃ p ∈ splitOn colon [] path, isdir p = true ∧ x = normpath p ∧
+      (∀ z, dbz = some z → z.isEmpty = false → dbzMatches z p = true)) ∧
+    (∀ seen a b, uniqDirs seen (a ++ b) = uniqDirs seen a ++ uniqDirs (a.reverse ++ seen) b) :=
+  ⟨(setEupsPath_spec isdir path dbz l h).1, (setEupsPath_spec isdir path dbz l h).2, uniqDirs_append⟩
+
+/-- non-vacuity: `/a//s0:/b/../a/s0/:/nowhere:/a/s1` with `/a//s0`, `/b/../a/s0/`, `/a/s1` existing: two stacks -/
+example : setEupsPath (fun p => [[47, 97, 47, 47, 115, 48], [47, 98, 47, 46, 46, 47, 97, 47, 115, 48, 47], [47, 97, 47, 115, 49]].contains p)
+    ([47, 97, 47, 47, 115, 48, 58, 47, 98, 47, 46, 46, 47, 97, 47, 115, 48, 47, 58, 47, 110, 111, 58, 47, 97, 47, 115, 49]) none
+    = .ok [[47, 97, 47, 115, 48], [47, 97, 47, 115, 49]] := by decide
+
+/-! ## `vers.sort(version_cmp); vers[-1]` is `lastMax`
+
+The model reads "the latest of a list" as the fold `lastMax`.  Python's `list.sort` is a stable sort that
+only asks `cmp a b < 0` (`Model/VroSort.lean`: `stableSort`, `sortLast`); for a comparison that is a total
+preorder on the names involved the two agree — for C10's comparator on conventional names in particular. -/
+
+theorem C03_latest_is_last_of_stable_sort (P : Str → Prop) (cmp : Str → Str → Int) (t : TotalOrdOn P cmp)
+    (l : List Str) (hl : ∀ x ∈ l, P x) :
+    lastMax cmp l = sortLast cmp l ∧ (stableSort cmp l).Perm l ∧
+      List.Pairwise (fun a b => cmp a b ≤ 0) (stableSort cmp l) :=
+  ⟨lastMax_eq_sortLast t hl, stableSort_perm cmp l, stableSort_sorted t hl⟩
+
+theorem C03_latest_is_last_of_stable_sort_conv (l : List Str) (hl : ∀ x ∈ l, VersionCmp.convName x = true) :
+    lastMax c10Cmp l = sortLast c10Cmp l :=
+  lastMax_c10_eq_sortLast hl
+
+/-- negation: the order hypotheses of `C03_expr_entry_is_max` (`GoodOrd`) alone do not make the fold the sort's
+last element (sign antisymmetry in the other direction is needed), and neither does antisymmetry without
+transitivity. -/
+theorem C03_sort_needs_total_order_witness :
+    (GoodOrd badCmp ∧ lastMax badCmp [[49], [50], [51]] ≠ sortLast badCmp [[49], [50], [51]]) ∧
+    ((∀ a b, rpsCmp b a = - rpsCmp a b) ∧ lastMax rpsCmp [[48], [49], [50]] ≠ sortLast rpsCmp [[48], [49], [50]]) :=
+  ⟨⟨badCmp_good, badCmp_lastMax_ne_sortLast⟩, ⟨rpsCmp_neg, rpsCmp_lastMax_ne_sortLast⟩⟩
+
+/-- the tie `1.0` / `1.00`: the last listed of the two is the answer, by the fold and by the sort -/
+example : lastMax simpleCmp [v10, [49, 46, 48, 48], [48, 46, 57]] = some [49, 46, 48, 48] ∧
+    sortLast simpleCmp [v10, [49, 46, 48, 48], [48, 46, 57]] = some [49, 46, 48, 48] := by decide
 
 /-! ## the VRO in force for a table line is the command's VRO as modified by that line only -/
 
